@@ -771,7 +771,8 @@ Proof.
   destruct (rd_fixrefs (rd_known e) o') eqn:Ef; rewrite ?W5, W4; cbn [app]; rewrite Hsk; reflexivity.
 Qed.
 
-(* ------------------------------------------------------------------ rd_reads_writer_output: what is proved, what is missing
+(* [superseded by the status record at the end of File/C03ProofsRdW8.v: steps a-f below are now proved there]
+   ------------------------------------------------------------------ rd_reads_writer_output: what is proved, what is missing
    Goal: for every wf_doc d (plus: no real numbers, printed dictionary keys pairwise different at every level, integers
    within long long, at most 500 container openings per object, the output a byte string, "startxref" occurring once in the
    last 1054 bytes, /Root a /Catalog with a /Pages dictionary), rd_view (write_doc d) = the view of d with no warning.
